@@ -21,6 +21,9 @@ func printConsts() {
 	for k, v := range encoding.VerifConsts() {
 		c[k] = v
 	}
+	for k, v := range encoding.VerifStringVersions() {
+		c[k] = v
+	}
 	for k, v := range compress.VerifConsts() {
 		c[k] = v
 	}
